@@ -2,28 +2,50 @@
   C15 — FRU inventory parsing inverts the FRU storage format and enforces its checksums.
 
   Spec  : PyIpmi.Spec.FruFormat   (FruImage, encodeFru, view, checksumsOk, covered, WellFormed)
-  Model : PyIpmi.Model.FruParse   (parseFru, mirror of pyipmi/fru.py + fields.py + utils.bcd_decode;
-                                   `Variant.asShipped` = pinned tree, `Variant.intended` = after fixes/C15-1.diff)
-  Gen   : PyIpmi.Gen.FruTables    (BCD_MAP, 6-bit masks/shifts, type/length masks, dispatch constants)
+  Model : PyIpmi.Model.FruParse   (parseFru, mirror of pyipmi/fru.py + fields.py + utils.bcd_decode)
+          PyIpmi.Model.FruDevice  (parseFruDevice, mirror of Fru.get_fru_inventory above read_fru_data)
+          `Variant` flags (each PROBED on the tree under test): bcdBytesOnly, sixStrict (fixes/C15-1.diff),
+          areaLenLax, devLenLax (fixes/C15-2.diff), picmgTypeOnly (fixes/C15-3.diff);
+          `Variant.asShipped` = all set, `Variant.intended` = none set, `Variant.afterC15_1` = pinned tree
+          after C15-1 only
+  Gen   : PyIpmi.Gen.FruTables    (BCD_MAP, 6-bit masks/shifts, type/length masks, dispatch constants and –
+                                   when the source has them – manufacturer id and record-length guards)
 
+  parse ∘ encode = view
   * `parse_encode`                    — intended parser: parse (encode img) = view img, every input kind,
-                                        for ALL well-formed images (any number of custom fields / records)
-  * `parse_encode_asShipped_restricted` — the pinned parser does the same on the images it can decode
-                                        (no BCD+ field unless the image is `bytes`; 6-bit fields of 3k bytes)
-  * `asShipped_bcd_counterexample`, `asShipped_sixbit_counterexample`
+                                        for ALL well-formed images (any number of custom fields / records,
+                                        OEM records of type C0h of other manufacturers included)
+  * `parse_encode_device`             — the same through the device path (`Ipmi.get_fru_inventory()` on a
+                                        device that stores the image followed by anything)
+  * `parse_encode_restricted`, `parse_encode_device_restricted`
+                                      — any variant does the same on the images it can decode (`okFor`:
+                                        no BCD+ field unless `bytes`, 6-bit fields of 3k bytes, no non-PICMG C0h record)
+  * `asShipped_bcd_counterexample`, `asShipped_sixbit_counterexample`, `asShipped_oem_c0_counterexample`,
+    `asShipped_oem_c0_outside_record`, `asShipped_file_device_disagree`
                                       — the pinned parser violates parse∘encode = view (concrete images)
-  * `accept_implies_checksums`        — ANY byte string, either variant: accepted ⇒ header, every info area
-                                        and every record header/body satisfy their zero-sum checksums
+  acceptance ⇒ checksums
+  * `accept_implies_checksums`        — ANY byte string, any variant that validates the area length byte:
+                                        accepted ⇒ header, every info area (over its DECLARED length, which is
+                                        ≥ 1 unit of 8 bytes and inside the data) and every record header/body
+                                        satisfy their zero-sum checksums
+  * `device_accept_implies_area_checksums` — the same for the info areas on the device path
+  altered images
   * `alteration_rejected`             — a single altered byte in the common header, an info area (except its
-                                        length byte) or the multi-record area is never accepted
-  * `alteration_rejected_length_byte_partial`, `length_byte_limit`
-                                      — the info-area length byte: rejected unless the re-delimited range sums
-                                        to zero; and a witness that no parser of this format can do better
+                                        length byte) or the multi-record area is never accepted (every variant)
+  * `alteration_rejected_length_byte_partial`
+                                      — the info-area length byte set to b': accepted only if b' ≥ 1, the span of
+                                        8·b' bytes lies inside the image and sums to zero – the altered byte is
+                                        inside a verified span; corollaries `alteration_length_zero_rejected`,
+                                        `alteration_length_beyond_rejected`; `length_byte_limit`: a witness that
+                                        no parser of this format can do better than that
+  * `asShipped_length_zero_counterexample`, `asShipped_length_beyond_counterexample`,
+    `asShipped_device_length_zero_counterexample`
+                                      — the pinned parser accepts an altered covered byte (length 0: every image)
   * `encodeFru_is_bytes`              — the encoder produces bytes (offsets / lengths fit their fields)
   * `ascii6_text_exact`               — 6-bit text is reported exactly unless n ≡ 3 (mod 4) (then one space more)
   * `tables_match_storage_definition` — generated BCD_MAP / constants equal the storage definition's (T tie)
 -/
-import PyIpmi.Lemmas.FruAlterImage
+import PyIpmi.Lemmas.FruDevice
 namespace PyIpmi.Props.C15
 open PyIpmi PyIpmi.Fru PyIpmi.Gen
 
@@ -35,11 +57,25 @@ theorem parse_encode (img : FruImage) (k : InputKind) (h : WellFormed img) :
     parseFru .intended k (encodeFru img) = .ok (view img) :=
   parse_encode_gen .intended k img h (FruImage.okFor_intended k img)
 
-/-- The pinned parser agrees on the part of the quantifier it can handle. -/
-theorem parse_encode_asShipped_restricted (img : FruImage) (k : InputKind) (h : WellFormed img)
-    (hok : img.okFor .asShipped k = true) :
-    parseFru .asShipped k (encodeFru img) = .ok (view img) :=
-  parse_encode_gen .asShipped k img h hok
+/-- The same through the device path: `Ipmi.get_fru_inventory()` on a device whose storage starts
+with the image (followed by anything) reports the same areas (the inventory object of this path
+carries no common header). -/
+theorem parse_encode_device (img : FruImage) (tail : List Nat) (h : WellFormed img) :
+    parseFruDevice .intended (encodeFru img ++ tail) = .ok { view img with header := none } :=
+  parse_encode_device_gen .intended img tail h (FruImage.okFor_intended .bytes img)
+
+/-- Every variant (the pinned parser included) agrees on the part of the quantifier it can
+handle: `okFor` – no BCD+ field unless the image is `bytes`, 6-bit fields of 3k bytes, no C0h
+record other than a PICMG record. -/
+theorem parse_encode_restricted (v : Variant) (img : FruImage) (k : InputKind) (h : WellFormed img)
+    (hok : img.okFor v k = true) :
+    parseFru v k (encodeFru img) = .ok (view img) :=
+  parse_encode_gen v k img h hok
+
+theorem parse_encode_device_restricted (v : Variant) (img : FruImage) (tail : List Nat) (h : WellFormed img)
+    (hok : img.okFor v .bytes = true) :
+    parseFruDevice v (encodeFru img ++ tail) = .ok { view img with header := none } :=
+  parse_encode_device_gen v img tail h hok
 
 /-- chassis area, part number = BCD+ "12" -/
 def witnessBcd : FruImage :=
@@ -69,77 +105,185 @@ theorem asShipped_sixbit_counterexample :
   revert this
   decide
 
+/-- OEM record of type C0h of manufacturer 343 (000157h) whose fourth data byte is 27h -/
+def witnessOem : FruImage :=
+  ⟨none, none, none, none, [.generic 0xC0 [0x57, 0x01, 0x00, 0x27, 0x00, 0x10, 0x20]]⟩
+
+/-- OEM record of type C0h with the manufacturer id only (3 data bytes), followed by a DC load record -/
+def witnessOemShort : FruImage :=
+  ⟨none, none, none, none, [.generic 0xC0 [0x57, 0x01, 0x00], .generic 2 [1, 2, 3, 4, 5, 6, 7, 8, 9, 10, 11, 12, 13]]⟩
+
+/-- a DC load record followed by an OEM record of type C0h with one data byte behind the manufacturer id -/
+def witnessOemLast : FruImage :=
+  ⟨none, none, none, none, [.generic 2 [1, 2, 3, 4, 5, 6, 7, 8, 9, 10, 11, 12, 13], .generic 0xC0 [0x57, 0x01, 0x00, 0xAA]]⟩
+
+/-- Dispatching on the record type alone (fixes/C15-3.diff not applied) violates parse∘encode = view:
+every C0h record is taken for a PICMG record. -/
+theorem asShipped_oem_c0_counterexample (v : Variant) (hv : v.picmgTypeOnly = true) :
+    ¬ ∀ (img : FruImage) (k : InputKind), WellFormed img →
+        parseFru v k (encodeFru img) = .ok (view img) := by
+  intro h
+  have := h witnessOem .bytes (by decide)
+  obtain ⟨a, b, c, d, e⟩ := v
+  simp only at hv
+  subst hv
+  revert this
+  cases a <;> cases b <;> cases c <;> cases d <;> decide
+
+/-- … namely: the foreign OEM record comes back as a MicroTCA power module capability record with a
+"maximum current output" of 820.8 A that nobody encoded (`witnessOem`), and the PICMG record id and
+version of the 3-byte record are bytes 0 and 1 of the NEXT record's header (`witnessOemShort`). -/
+theorem asShipped_oem_c0_outside_record :
+    parseFru .afterC15_1 .bytes (encodeFru witnessOem) =
+      .ok { view witnessOem with multi := .parsed [.power 0xC0 true 7 [0x57, 0x01, 0x00, 0x27, 0x00, 0x10, 0x20]
+              0x000157 0x27 0x00 8208] } ∧
+    parseFru .afterC15_1 .bytes (encodeFru witnessOemShort) =
+      .ok { view witnessOemShort with multi := .parsed [.picmg 0xC0 false 3 [0x57, 0x01, 0x00] 0x000157 0x02 0x82,
+              .unknown 2 2 true 13 [1, 2, 3, 4, 5, 6, 7, 8, 9, 10, 11, 12, 13]] } := by
+  decide +kernel
+
+/-- File and device disagree as shipped: the image `witnessOemLast` followed by five unused 00h bytes
+(a file) is accepted – the PICMG fields of its last record are made up from the padding – while the
+device path, which reads exactly the multi-record area, rejects the same storage contents. -/
+theorem asShipped_file_device_disagree :
+    WellFormed witnessOemLast ∧
+    (parseFru .afterC15_1 .array (encodeFru witnessOemLast ++ [0, 0, 0, 0, 0])).isOk = true ∧
+    parseFru .afterC15_1 .array (encodeFru witnessOemLast ++ [0, 0, 0, 0, 0]) ≠ .ok (view witnessOemLast) ∧
+    parseFruDevice .afterC15_1 (encodeFru witnessOemLast ++ [0, 0, 0, 0, 0]) = .decodingError ∧
+    parseFru .intended .array (encodeFru witnessOemLast ++ [0, 0, 0, 0, 0]) = .ok (view witnessOemLast) ∧
+    parseFruDevice .intended (encodeFru witnessOemLast ++ [0, 0, 0, 0, 0]) =
+      .ok { view witnessOemLast with header := none } := by
+  decide +kernel
+
 /-! ### acceptance implies the checksums -/
 
-/-- Whatever the bytes, whichever variant and input kind: an accepted image satisfies the common
-header checksum, the checksum of every info area the header points to, and the header and body
-checksum of every record of the chain (`checksumsOk`, Spec/FruFormat.lean). -/
-theorem accept_implies_checksums (v : Variant) (k : InputKind) (bs : List Nat) (fv : FruView)
+/-- Whatever the bytes, whichever input kind, for every variant that validates the info-area
+length byte (fixes/C15-2.diff): an accepted image satisfies the common header checksum, the checksum
+of every info area the header points to – over the area's DECLARED length, which is at least one
+unit of 8 bytes and lies inside the data – and the header and body checksum of every record of
+the chain (`checksumsOk`, Spec/FruFormat.lean). -/
+theorem accept_implies_checksums (v : Variant) (hv : v.areaLenLax = false) (k : InputKind)
+    (bs : List Nat) (fv : FruView)
     (h : parseFru v k bs = .ok fv) : checksumsOk bs = true :=
-  accept_checksums v k bs fv h
+  accept_checksums v hv k bs fv h
+
+/-- Device path (`Ipmi.get_fru_inventory()`), whatever the device stores, for every variant whose
+`_read_fru_area` validates the length byte: an accepted inventory means that every info area the
+header announces (header byte `k`: 2 chassis, 3 board, 4 product) declares a length `L ≥ 1`, lies
+inside the storage and sums to zero over exactly its `8·L` bytes. -/
+theorem device_accept_implies_area_checksums (v : Variant) (hv : v.devLenLax = false)
+    (store : List Nat) (fv : FruView) (k : Nat) (hk : k = 2 ∨ k = 3 ∨ k = 4)
+    (hoff : store.getD k 0 ≠ 0) (hp : parseFruDevice v store = .ok fv) :
+    1 ≤ store.getD (8 * store.getD k 0 + 1) 0 ∧
+    8 * store.getD k 0 + 8 * store.getD (8 * store.getD k 0 + 1) 0 ≤ store.length ∧
+    sum8 ((store.drop (8 * store.getD k 0)).take (8 * store.getD (8 * store.getD k 0 + 1) 0)) = 0 :=
+  device_accept_area_span v hv store fv k hk hoff hp
 
 /-! ### altered images are rejected -/
 
 /-- An image in which one byte covered by a checksum (other than an info-area length byte) was
-altered is never accepted – by either variant, for every input kind. -/
+altered is never accepted – by any variant, for every input kind. -/
 theorem alteration_rejected (img : FruImage) (h : WellFormed img) (i old b' : Nat)
     (hold : (encodeFru img)[i]? = some old) (hb' : b' < 256) (hne : b' ≠ old)
     (hcov : covered img i = true) (hlen : isAreaLengthByte img i = false)
     (v : Variant) (k : InputKind) (fv : FruView) :
     parseFru v k ((encodeFru img).set i b') ≠ .ok fv := by
   intro hp
-  have h1 := accept_checksums v k _ fv hp
+  have h1 := accept_checksums_clamped v k _ fv hp
   have h2 := alter_image img h i b' old hold hb' hne hcov hlen
   rw [h2] at h1
   cases h1
 
 /- Full statement for the length byte (NOT provable, see `length_byte_limit`):
      isAreaLengthByte img i = true → b' ≠ old → parseFru v k ((encodeFru img).set i b') ≠ .ok fv
-   The byte defines the extent of the very checksum that covers it. -/
+   The byte defines the extent of the very checksum that covers it: an 8-bit checksum cannot tell an
+   altered length from the genuine length of a shorter or longer area whose bytes happen to sum to
+   zero.  What a reader CAN do – and the repaired one does – is to verify a span that contains the
+   altered byte: -/
 
-/-- Length byte of the info area announced by header byte `k` (2 chassis, 3 board, 4 product), for
-ANY byte string: the altered image is rejected unless the range re-delimited by the new length
-value happens to sum to zero. -/
-theorem alteration_rejected_length_byte_partial (bs : List Nat) (k : Nat) (hk : k = 2 ∨ k = 3 ∨ k = 4)
-    (hoff : bs.getD k 0 ≠ 0) (b' : Nat) (hlt : 8 * bs.getD k 0 + 1 < bs.length)
-    (hside : sum8 (((bs.set (8 * bs.getD k 0 + 1) b').drop (8 * bs.getD k 0)).take (8 * b')) ≠ 0)
-    (v : Variant) (kd : InputKind) (fv : FruView) :
-    parseFru v kd (bs.set (8 * bs.getD k 0 + 1) b') ≠ .ok fv := by
+/-- The length byte (position `i`, area offset `i - 1`) of an info area of an encoded image set to
+ANY value `b'`: a reader that validates the length byte accepts the result only if `b' ≥ 1`, the
+`8·b'` bytes from the area offset lie inside the image, and this span – which contains position
+`i` – sums to zero.  (`…_partial`: rejection of EVERY altered length byte is not provable, see
+`length_byte_limit`.) -/
+theorem alteration_rejected_length_byte_partial (img : FruImage) (i old b' : Nat)
+    (hold : (encodeFru img)[i]? = some old) (hlb : isAreaLengthByte img i = true)
+    (v : Variant) (hv : v.areaLenLax = false) (k : InputKind) (fv : FruView)
+    (hp : parseFru v k ((encodeFru img).set i b') = .ok fv) :
+    1 ≤ b' ∧ (i - 1) + 8 * b' ≤ (encodeFru img).length ∧
+    sum8 ((((encodeFru img).set i b').drop (i - 1)).take (8 * b')) = 0 :=
+  alter_length_byte img i old b' hold hlb v hv k fv hp
+
+/-- An info-area length byte altered to 0 is rejected (finding: as shipped it is accepted for EVERY
+image, `asShipped_length_zero_counterexample`). -/
+theorem alteration_length_zero_rejected (img : FruImage) (i old : Nat)
+    (hold : (encodeFru img)[i]? = some old) (hlb : isAreaLengthByte img i = true)
+    (v : Variant) (hv : v.areaLenLax = false) (k : InputKind) (fv : FruView) :
+    parseFru v k ((encodeFru img).set i 0) ≠ .ok fv := by
   intro hp
-  have h1 := accept_checksums v kd _ fv hp
-  have hk8 : k < 8 := by omega
-  have hg : (bs.set (8 * bs.getD k 0 + 1) b').getD k 0 = bs.getD k 0 := by
-    simp only [List.getD_eq_getElem?_getD, List.getElem?_set]
-    have : ¬ (8 * bs[k]?.getD 0 + 1 = k) := by
-      have := hoff; rw [List.getD_eq_getElem?_getD] at this; omega
-    simp [this]
-  have harea : areaSumOk (areaAt (bs.set (8 * bs.getD k 0 + 1) b') k) = true := by
-    simp only [checksumsOk, Bool.and_eq_true, Bool.or_eq_true, beq_iff_eq] at h1
-    obtain ⟨⟨⟨⟨_, a2⟩, a3⟩, a4⟩, _⟩ := h1
-    rcases hk with rfl | rfl | rfl
-    · rcases a2 with h | h
-      · rw [hg] at h; exact absurd h hoff
-      · exact h
-    · rcases a3 with h | h
-      · rw [hg] at h; exact absurd h hoff
-      · exact h
-    · rcases a4 with h | h
-      · rw [hg] at h; exact absurd h hoff
-      · exact h
-  unfold areaAt at harea
-  rw [hg] at harea
-  have hd1 : ((bs.set (8 * bs.getD k 0 + 1) b').drop (8 * bs.getD k 0)).getD 1 0 = b' := by
-    have hlt' : 8 * bs[k]?.getD 0 + 1 < bs.length := by rwa [List.getD_eq_getElem?_getD] at hlt
-    simp only [List.getD_eq_getElem?_getD, List.getElem?_drop, List.getElem?_set]
-    simp [hlt']
-  have hnn : (bs.set (8 * bs.getD k 0 + 1) b').drop (8 * bs.getD k 0) ≠ [] := by
-    intro he
-    have h0 : ((bs.set (8 * bs.getD k 0 + 1) b').drop (8 * bs.getD k 0)).length = 0 := by rw [he]; rfl
-    rw [List.length_drop, List.length_set] at h0
-    omega
-  rw [areaSumOk_ne_nil _ hnn, hd1] at harea
-  simp only [beq_iff_eq] at harea
-  exact hside harea
+  have := (alteration_rejected_length_byte_partial img i old 0 hold hlb v hv k fv hp).1
+  omega
+
+/-- An info-area length byte altered to a length that reaches behind the end of the image is
+rejected (as shipped the checksum is summed over the truncated remainder). -/
+theorem alteration_length_beyond_rejected (img : FruImage) (i old b' : Nat)
+    (hold : (encodeFru img)[i]? = some old) (hlb : isAreaLengthByte img i = true)
+    (hbeyond : (encodeFru img).length < (i - 1) + 8 * b')
+    (v : Variant) (hv : v.areaLenLax = false) (k : InputKind) (fv : FruView) :
+    parseFru v k ((encodeFru img).set i b') ≠ .ok fv := by
+  intro hp
+  have := (alteration_rejected_length_byte_partial img i old b' hold hlb v hv k fv hp).2.1
+  omega
+
+/-- The same for ANY byte string (not only encoded images): header byte `k` announces an area
+inside the data – acceptance implies length ≥ 1, span inside the data, zero sum over the span. -/
+theorem accept_implies_area_span (v : Variant) (hv : v.areaLenLax = false) (kd : InputKind) (bs : List Nat)
+    (fv : FruView) (k : Nat) (hk : k = 2 ∨ k = 3 ∨ k = 4)
+    (hoff : bs.getD k 0 ≠ 0) (hin : 8 * bs.getD k 0 < bs.length) (hp : parseFru v kd bs = .ok fv) :
+    1 ≤ bs.getD (8 * bs.getD k 0 + 1) 0 ∧
+    8 * bs.getD k 0 + 8 * bs.getD (8 * bs.getD k 0 + 1) 0 ≤ bs.length ∧
+    sum8 ((bs.drop (8 * bs.getD k 0)).take (8 * bs.getD (8 * bs.getD k 0 + 1) 0)) = 0 :=
+  accept_area_span v hv kd bs fv k hk hoff hin hp
+
+/-- chassis area of 8 bytes (length byte 01h at position 9) followed by a DC output record with
+the data byte 05h -/
+def witnessLen : FruImage :=
+  ⟨none, some ⟨23, .text8 [], .text8 [], [], 0⟩, none, none, [.generic 1 [5]]⟩
+
+/-- Without the length validation (fixes/C15-2.diff not applied) an altered covered byte is
+accepted: the chassis length byte of `witnessLen` set from 1 to 0 – the checksum is "verified" over
+zero bytes (this works for every image). -/
+theorem asShipped_length_zero_counterexample (v : Variant) (hv : v.areaLenLax = true) :
+    WellFormed witnessLen ∧ covered witnessLen 9 = true ∧ (encodeFru witnessLen)[9]? = some 1 ∧
+    (parseFru v .bytes ((encodeFru witnessLen).set 9 0)).isOk = true ∧
+    checksumsOk ((encodeFru witnessLen).set 9 0) = false := by
+  obtain ⟨a, b, c, d, e⟩ := v
+  simp only at hv
+  subst hv
+  cases a <;> cases b <;> cases d <;> cases e <;> decide +kernel
+
+/-- … and a length that reaches behind the end of the image (FCh = 2016 bytes) is accepted when
+the truncated remainder happens to sum to zero (one value of the byte does that for almost every
+image). -/
+theorem asShipped_length_beyond_counterexample (v : Variant) (hv : v.areaLenLax = true) :
+    (encodeFru witnessLen).length = 22 ∧
+    (parseFru v .bytes ((encodeFru witnessLen).set 9 0xFC)).isOk = true ∧
+    checksumsOk ((encodeFru witnessLen).set 9 0xFC) = false := by
+  obtain ⟨a, b, c, d, e⟩ := v
+  simp only at hv
+  subst hv
+  cases a <;> cases b <;> cases d <;> cases e <;> decide +kernel
+
+/-- Device path without the validation in `_read_fru_area`: the altered image (followed by FFh up
+to the device size) is accepted and the chassis area comes back as an object without attributes
+(`Slot.empty`) – not even its format version was looked at. -/
+theorem asShipped_device_length_zero_counterexample (v : Variant) (hv : v.devLenLax = true) :
+    parseFruDevice v ((encodeFru witnessLen).set 9 0 ++ List.replicate 10 0xFF) =
+      .ok ⟨none, .empty, .absent, .absent, .parsed [.unknown 1 2 true 1 [5]]⟩ := by
+  obtain ⟨a, b, c, d, e⟩ := v
+  simp only at hv
+  subst hv
+  cases a <;> cases b <;> cases c <;> cases e <;> decide +kernel
 
 /-- `limitImage`: chassis area with 8 bytes of unused space (16 bytes); `limitImage'`: the same
 content without the unused space (8 bytes). -/
@@ -157,7 +301,8 @@ theorem length_byte_limit :
     isAreaLengthByte limitImage 9 = true ∧ (encodeFru limitImage)[9]? = some 2 ∧
     (encodeFru limitImage).set 9 1 = encodeFru limitImage' ++ [0, 0, 0, 0, 0, 0, 0, 0xFF] ∧
     checksumsOk ((encodeFru limitImage).set 9 1) = true ∧
-    parseFru .intended .bytes ((encodeFru limitImage).set 9 1) = .ok (view limitImage') := by
+    parseFru .intended .bytes ((encodeFru limitImage).set 9 1) = .ok (view limitImage') ∧
+    parseFruDevice .intended ((encodeFru limitImage).set 9 1) = .ok { view limitImage' with header := none } := by
   decide +kernel
 
 /-! ### the encoder produces bytes; 6-bit text -/
@@ -181,7 +326,11 @@ theorem tables_match_storage_definition :
     FruTables.picmgRecordType = picmgRecordType ∧
     FruTables.powerModuleId = powerModuleId ∧
     FruTables.headerLen = 8 ∧ FruTables.minRecord = 5 ∧
-    FruTables.typeBcd = 1 ∧ FruTables.typeSix = 2 := by
+    FruTables.typeBcd = 1 ∧ FruTables.typeSix = 2 ∧
+    -- constants of the repaired record dispatch, when the source has them (`none`: type-only dispatch)
+    FruTables.picmgMfgId.all (· == picmgMfgId) = true ∧
+    FruTables.dispatchMinData.all (· == 10) = true ∧ FruTables.dispatchMinLen.all (· == 5) = true ∧
+    FruTables.picmgMinLen.all (· == 5) = true ∧ FruTables.powerMinLen.all (· == 7) = true := by
   decide
 
 /-! ### non-vacuity: a non-trivial image satisfies every hypothesis -/
@@ -193,11 +342,20 @@ def demo : FruImage :=
                    .text8 [], [.ascii6 [1]], 0⟩
     product := some ⟨0, .text8 [0x4B, 0x6F], .text8 [], .binary [0xFF], .bcdPlus [], .ascii6 [1, 2], .text8 [],
                      .text8 [0x31, 0x32, 0x33], [], 0⟩
-    records := [.generic 1 [1, 2, 3], .picmg 0x16 0 [9, 9], .power 0 420 []] }
+    records := [.generic 1 [1, 2, 3], .picmg 0x16 0 [9, 9], .generic 0xC0 [0x57, 0x01, 0x00, 0x27, 0x00, 0x10, 0x20],
+                .generic 0xC0 [0x5A, 0x31, 0x00, 0x27], .power 0 420 []] }
 
 example : WellFormed demo := by decide
-example : (encodeFru demo).length = 128 := by decide +kernel
+example : (encodeFru demo).length = 149 := by decide +kernel
 example : parseFru .intended .array (encodeFru demo) = .ok (view demo) := by decide +kernel
+example : parseFruDevice .intended (encodeFru demo ++ [0xFF, 0xFF, 0xFF]) = .ok { view demo with header := none } := by
+  decide +kernel
+example : demo.okFor .afterC15_1 .array = false := by decide
+-- byte 17 is the chassis length byte: 0 and a length behind the end are rejected by the repaired parser
+example : isAreaLengthByte demo 17 = true ∧
+    parseFru .intended .bytes ((encodeFru demo).set 17 0) = .decodingError ∧
+    parseFru .intended .bytes ((encodeFru demo).set 17 0xFF) = .decodingError ∧
+    parseFruDevice .intended ((encodeFru demo).set 17 0) = .decodingError := by decide +kernel
 example : checksumsOk (encodeFru demo) = true := by decide +kernel
 example : demo.okFor .asShipped .array = false := by decide
 -- byte 20 lies in the chassis area (offset 16), is not its length byte, and altering it is fatal
